@@ -8,6 +8,8 @@
  *
  *   newdec k=v ...          free the decoder, make a new one (hmm=<argv[1]> unless given)
  *   addlike <hexnew> <hexold>   decoder_add_word(new, pronunciation of old)
+ *   jsgffile <path>         decoder_set_jsgf_file
+ *   setcfg <key> <hex|->    config_set_str on the live decoder's configuration (toprule)
  *   jsgf <hex>              decoder_set_jsgf_string (+ separate compile of the same text = loaded grammar)
  *   fsgfile <path>          fsg_model_readfile, dump, decoder_set_fsg
  *   align <hex>             decoder_set_align_text (loaded grammar = the word chain, built here)
@@ -105,6 +107,8 @@ static void set_orig_from_fsg(fsg_model_t *fsg)
     orig_block = b.p;
 }
 
+static char *jsgf_reference_block(jsgf_t *j);
+
 static void cmd_newdec(char **w, int n)
 {
     config_t *cfg;
@@ -121,7 +125,19 @@ static void cmd_newdec(char **w, int n)
     }
     if (!have_hmm) config_set_str(cfg, "hmm", hmmdir);
     dec = decoder_init(cfg);
-    printf("newdec %s\n", dec ? "ok" : "fail");
+    if (dec && dec->search) {
+        /* a grammar installed by decoder_init from the configuration (jsgf= / fsg=) */
+        const char *jp = config_str(dec->config, "jsgf"), *fp = config_str(dec->config, "fsg");
+        if (jp) {
+            jsgf_t *j = jsgf_parse_file(jp, NULL);
+            orig_block = jsgf_reference_block(j);
+            if (j) jsgf_grammar_free(j);
+        } else if (fp) {
+            fsg_model_t *fsg = fsg_model_readfile(fp, dec->lmath, (float32)config_float(dec->config, "lw"));
+            if (fsg) { set_orig_from_fsg(fsg); fsg_model_free(fsg); }
+        }
+    }
+    printf("newdec %s %d\n", dec ? "ok" : "fail", dec && dec->search ? 1 : 0);
 }
 
 /* decoder_add_word(new, pronunciation of an existing word): case variants and homophones */
@@ -139,34 +155,60 @@ static void cmd_addlike(const char *hexnew, const char *hexold)
     free(nw); free(ow);
 }
 
+/* The grammar as loaded, for a JSGF text: the same text compiled separately, start rule = the rule the
+ * CONFIGURATION names (toprule, looked up with jsgf_get_rule) or else the first public rule — never whatever
+ * the decoder activated.  Returns the malloc'ed "G…" block or NULL (parse error / no such rule). */
+static char *jsgf_reference_block(jsgf_t *j)
+{
+    const char *toprule = config_str(dec->config, "toprule");
+    jsgf_rule_t *r;
+    fsg_model_t *fsg;
+    sbuf_t b = { NULL, 0, 0 };
+    if (j == NULL) return NULL;
+    r = toprule ? jsgf_get_rule(j, toprule) : jsgf_get_public_rule(j);
+    if (r == NULL) return NULL;
+    fsg = jsgf_build_fsg(j, r, dec->lmath, (float32)config_float(dec->config, "lw"));
+    if (fsg == NULL) return NULL;
+    sb_put(&b, "");
+    fsg_to_sb(&b, fsg, "G", NULL, NULL);
+    fsg_model_free(fsg);
+    return b.p;
+}
+
 static void cmd_jsgf(const char *hex)
 {
     size_t len;
-    char *s = (char *)vf_parse_hex(hex, &len);
-    jsgf_t *j;
-    int rv, have = 0;
-    /* the grammar as loaded: compile the same text separately, exactly as decoder_set_jsgf_string does */
-    j = jsgf_parse_string(s, NULL);
-    if (j) {
-        jsgf_rule_t *r = jsgf_get_public_rule(j);
-        if (r) {
-            fsg_model_t *fsg = jsgf_build_fsg(j, r, dec->lmath, (float32)config_float(dec->config, "lw"));
-            if (fsg) {
-                /* keep it until the decoder accepted the grammar */
-                sbuf_t b = { NULL, 0, 0 };
-                sb_put(&b, "");
-                fsg_to_sb(&b, fsg, "G", NULL, NULL);
-                fsg_model_free(fsg);
-                rv = decoder_set_jsgf_string(dec, s);
-                if (rv == 0) { free(orig_block); orig_block = b.p; } else free(b.p);
-                have = 1;
-            }
-        }
-        jsgf_grammar_free(j);
-    }
-    if (!have) rv = decoder_set_jsgf_string(dec, s);
+    char *s = (char *)vf_parse_hex(hex, &len), *blk;
+    jsgf_t *j = jsgf_parse_string(s, NULL);
+    int rv;
+    blk = jsgf_reference_block(j);
+    if (j) jsgf_grammar_free(j);
+    rv = decoder_set_jsgf_string(dec, s);
+    if (rv == 0) { free(orig_block); orig_block = blk; } else free(blk);
     printf("jsgf %d\n", rv);
     free(s);
+}
+
+static void cmd_jsgffile(const char *path)
+{
+    char *blk;
+    jsgf_t *j = jsgf_parse_file(path, NULL);
+    int rv;
+    blk = jsgf_reference_block(j);
+    if (j) jsgf_grammar_free(j);
+    rv = decoder_set_jsgf_file(dec, path);
+    if (rv == 0) { free(orig_block); orig_block = blk; } else free(blk);
+    printf("jsgffile %d\n", rv);
+}
+
+/* config_set_str on the live decoder's configuration ("-" = NULL): e.g. toprule between grammar loads */
+static void cmd_setcfg(const char *key, const char *hexval)
+{
+    size_t len;
+    char *v = strcmp(hexval, "-") ? (char *)vf_parse_hex(hexval, &len) : NULL;
+    const void *r = config_set_str(dec->config, key, v);
+    printf("setcfg %d\n", r ? 0 : -1);
+    free(v);
 }
 
 static void cmd_fsgfile(const char *path)
@@ -348,6 +390,8 @@ int main(int argc, char **argv)
         else if (!dec) printf("nodec\n");
         else if (!strcmp(w[0], "addlike") && n == 3) cmd_addlike(w[1], w[2]);
         else if (!strcmp(w[0], "jsgf") && n == 2) cmd_jsgf(w[1]);
+        else if (!strcmp(w[0], "jsgffile") && n == 2) cmd_jsgffile(w[1]);
+        else if (!strcmp(w[0], "setcfg") && n == 3) cmd_setcfg(w[1], w[2]);
         else if (!strcmp(w[0], "fsgfile") && n == 2) cmd_fsgfile(w[1]);
         else if (!strcmp(w[0], "align") && n == 2) cmd_align(w[1]);
         else if (!strcmp(w[0], "audio") && n == 2) cmd_audio(w[1]);
